@@ -86,7 +86,7 @@ metadata** — for every caller metadata map, every message, every yield thresho
 delivery of the request allowed by the transport relation (any cut of the 5-byte prefix or the
 payload, any `Pending` pattern); whatever the handler then does (`sc`), and for both response
 shapes (`s`: unary, server-streaming). -/
-theorem C02_handler_sees_request_unary [DecidableEq α] (c : Cfg α) (laws : CodecLaws c.cd)
+theorem C02_handler_sees_request_unary [BEq α] [LawfulBEq α] (c : Cfg α) (laws : CodecLaws c.cd)
     (r : CallReq α) (m : α) (hone : r.msgs.msgs = [m]) (rok : RequestOk c.cd r)
     (nc : Nat) (hnc : r.msgs.length + 1 < nc)
     (rd : ReqDelivery) (htq : ReqTransports (clientRequest c nc r) rd) (hfuel : rd.chunks.length < c.fuel)
@@ -104,7 +104,7 @@ order, then the clean end of the stream, and the caller's metadata** — for eve
 schedule (any number of messages, `Pending`s anywhere), every delivery allowed by the transport
 relation, and every number `sc.reads` of `message()` calls the handler chooses to make (if it
 stops early it has seen the corresponding prefix). -/
-theorem C02_handler_sees_request_streaming [DecidableEq α] (c : Cfg α) (laws : CodecLaws c.cd)
+theorem C02_handler_sees_request_streaming [BEq α] [LawfulBEq α] (c : Cfg α) (laws : CodecLaws c.cd)
     (r : CallReq α) (rok : RequestOk c.cd r)
     (nc : Nat) (hnc : r.msgs.length + 1 < nc)
     (rd : ReqDelivery) (htq : ReqTransports (clientRequest c nc r) rd) (hfuel : rd.chunks.length < c.fuel)
@@ -128,7 +128,7 @@ metadata) — and EVERY delivery of the server's response allowed by the transpo
 the script's messages in order; then `None` iff the handler's stream ended normally, otherwise
 `Err` with the handler's code, message, details and every custom metadata entry (names in order
 of values); and an `Err(status)` handler makes the call itself fail with that status. -/
-theorem C02_client_sees_script_response_stream [DecidableEq α] (c : Cfg α) (laws : CodecLaws c.cd)
+theorem C02_client_sees_script_response_stream [BEq α] [LawfulBEq α] (c : Cfg α) (laws : CodecLaws c.cd)
     (sc : Script α) (ok : ScriptOk c.cd sc)
     (ns : Nat) (hns : sc.body.length + 2 < ns)
     (d : RespDelivery) (htr : RespTransports (handlerResponse c ns true sc) d)
@@ -157,7 +157,7 @@ or one message with any metadata; for EVERY delivery of the server's response al
 transport relation, `Grpc::unary` / `client_streaming` return `Ok` with that message and that
 metadata iff the handler returned `Ok`, and otherwise `Err` with the handler's code, message,
 details and custom metadata. -/
-theorem C02_client_sees_script_response_single [DecidableEq α] (c : Cfg α) (laws : CodecLaws c.cd)
+theorem C02_client_sees_script_response_single [BEq α] [LawfulBEq α] (c : Cfg α) (laws : CodecLaws c.cd)
     (sc : Script α) (ok : ScriptOk c.cd sc) (m : α) (hone : sc.body.msgs = [m]) (hfin : sc.final = none)
     (ns : Nat) (hns : sc.body.length + 2 < ns)
     (d : RespDelivery) (htr : RespTransports (handlerResponse c ns false sc) d)
@@ -182,7 +182,7 @@ property: the handler was given the caller's request, and the client was given t
 response. -/
 
 /-- **Unary call.** -/
-theorem C02_client_sees_script_unary [DecidableEq α] (c : Cfg α) (laws : CodecLaws c.cd)
+theorem C02_client_sees_script_unary [BEq α] [LawfulBEq α] (c : Cfg α) (laws : CodecLaws c.cd)
     (r : CallReq α) (mq : α) (hq : r.msgs.msgs = [mq]) (rok : RequestOk c.cd r)
     (sc : Script α) (ok : ScriptOk c.cd sc) (mr : α) (hr : sc.body.msgs = [mr]) (hfin : sc.final = none)
     (nc ns : Nat) (rd : ReqDelivery) (d : RespDelivery) (b : Budget c r sc nc ns rd d)
@@ -195,7 +195,7 @@ theorem C02_client_sees_script_unary [DecidableEq α] (c : Cfg α) (laws : Codec
   exact ⟨h1, C02_client_sees_script_response_single c laws sc ok mr hr hfin ns b.server d htr b.respFuel⟩
 
 /-- **Client-streaming call.** -/
-theorem C02_client_sees_script_client_streaming [DecidableEq α] (c : Cfg α) (laws : CodecLaws c.cd)
+theorem C02_client_sees_script_client_streaming [BEq α] [LawfulBEq α] (c : Cfg α) (laws : CodecLaws c.cd)
     (r : CallReq α) (rok : RequestOk c.cd r)
     (sc : Script α) (ok : ScriptOk c.cd sc) (mr : α) (hr : sc.body.msgs = [mr]) (hfin : sc.final = none)
     (nc ns : Nat) (rd : ReqDelivery) (d : RespDelivery) (b : Budget c r sc nc ns rd d)
@@ -208,7 +208,7 @@ theorem C02_client_sees_script_client_streaming [DecidableEq α] (c : Cfg α) (l
   exact ⟨h1, C02_client_sees_script_response_single c laws sc ok mr hr hfin ns b.server d htr b.respFuel⟩
 
 /-- **Server-streaming call.** -/
-theorem C02_client_sees_script_server_streaming [DecidableEq α] (c : Cfg α) (laws : CodecLaws c.cd)
+theorem C02_client_sees_script_server_streaming [BEq α] [LawfulBEq α] (c : Cfg α) (laws : CodecLaws c.cd)
     (r : CallReq α) (mq : α) (hq : r.msgs.msgs = [mq]) (rok : RequestOk c.cd r)
     (sc : Script α) (ok : ScriptOk c.cd sc)
     (nc ns : Nat) (rd : ReqDelivery) (d : RespDelivery) (b : Budget c r sc nc ns rd d)
@@ -221,7 +221,7 @@ theorem C02_client_sees_script_server_streaming [DecidableEq α] (c : Cfg α) (l
   exact ⟨h1, C02_client_sees_script_response_stream c laws sc ok ns b.server d htr b.respFuel⟩
 
 /-- **Bidirectional-streaming call.** -/
-theorem C02_client_sees_script_bidi [DecidableEq α] (c : Cfg α) (laws : CodecLaws c.cd)
+theorem C02_client_sees_script_bidi [BEq α] [LawfulBEq α] (c : Cfg α) (laws : CodecLaws c.cd)
     (r : CallReq α) (rok : RequestOk c.cd r)
     (sc : Script α) (ok : ScriptOk c.cd sc)
     (nc ns : Nat) (rd : ReqDelivery) (d : RespDelivery) (b : Budget c r sc nc ns rd d)
@@ -245,7 +245,7 @@ def oneRead (resp : HttpResp) : RespDelivery :=
 messages and the trailers are available to the client in the same poll, it yields all `k`
 messages first and then the handler's status (what integration tests over loopback cannot
 force). -/
-theorem C02_status_not_lost_when_sharing_a_read [DecidableEq α] (c : Cfg α) (laws : CodecLaws c.cd)
+theorem C02_status_not_lost_when_sharing_a_read [BEq α] [LawfulBEq α] (c : Cfg α) (laws : CodecLaws c.cd)
     (sc : Script α) (ok : ScriptOk c.cd sc) (st : FSt) (hearly : sc.early = none) (hf : sc.final = some st)
     (ns : Nat) (hns : sc.body.length + 2 < ns) (hfuel : 2 + sc.body.msgs.length < c.fuel) :
     ∃ md st' tr, clientReceive c true (oneRead (handlerResponse c ns true sc)) = .stream md sc.body.msgs (some st') tr ∧
@@ -296,5 +296,84 @@ theorem C02_status_views_agree (deMsg : Bytes) (d : RespDelivery) :
     | .err st => ∃ e, Framing.inferStatus (d.trailers.map trOf) d.status = some e ∧ respErr deMsg d e = st
     | .panic => False :=
   inferStatus_agrees deMsg d
+
+/-! ## non-vacuity
+
+A bidirectional call that satisfies every hypothesis of `C02_client_sees_script_bidi`: caller
+metadata with a reserved name, three request events, a request delivery cut inside both length
+prefixes with an empty chunk and `Pending`s; a handler that sends repeated initial metadata, two
+messages (one empty) around a `Pending`, then DATA_LOSS with `%`, newline and non-ASCII in the
+message, binary details, repeated / reserved / binary metadata; a response delivery cut inside
+the first prefix and between prefix and payload. -/
+
+def idCodec : Codec Bytes := { ser := id, de := some, deErr := 13, cz := fun _ b => b, dz := fun _ b => some b }
+def exCfg : Cfg Bytes := { cd := idCodec, deMsg := [], yieldThr := 6, fuel := 40 }
+
+def exSt : FSt :=
+  { code := .dataLoss, message := [37, 10, 195, 169], details := [0, 255],
+    metadata := [(HMap.name "x-a", [49]), (HMap.name "te", [120]), (HMap.name "x-a", [50]), (HMap.name "t-bin", [81, 81])] }
+
+def exScript : Script Bytes :=
+  { early := none, initMd := [(HMap.name "x-r", [97]), (HMap.name "x-r", [98])],
+    body := [some [1, 2], none, some []], final := some exSt, reads := 5 }
+
+def exReq : CallReq Bytes :=
+  { md := [(HMap.name "x-q", [49]), (HMap.name "content-type", [120])], msgs := [some [7], none, some [8, 9]] }
+
+def exRd : ReqDelivery :=
+  { headers := Metadata.requestWire exReq.md,
+    chunks := [some [0, 0], none, some [0, 0, 1, 7, 0], some [], some [0, 0, 0, 2, 8], none, some [9]] }
+
+def exD : RespDelivery :=
+  { status := 200, headers := Metadata.responseWire exScript.initMd,
+    chunks := [some [0, 0, 0], none, some [0, 2, 1], some [2, 0, 0, 0, 0, 0]],
+    trailers := some (Status.wire .fixed exSt []) }
+
+theorem exLaws : CodecLaws exCfg.cd := ⟨fun _ => rfl, fun _ _ => rfl⟩
+
+theorem exRequestOk : RequestOk exCfg.cd exReq :=
+  { msgs := by
+      intro m hm; simp [exReq, Sched.msgs] at hm
+      rcases hm with rfl | rfl <;> simp [MsgOk, exCfg, idCodec, defaultMaxRecv]
+    md := by unfold noEncodingName; decide }
+
+theorem exScriptOk : ScriptOk exCfg.cd exScript :=
+  { msgs := by
+      intro m hm; simp [exScript, Sched.msgs] at hm
+      rcases hm with rfl | rfl <;> simp [MsgOk, exCfg, idCodec, defaultMaxRecv]
+    early := by intro st h; simp [exScript] at h
+    final := by intro st h; simp [exScript] at h; subst h; exact ⟨by decide, by decide⟩
+    initMd := by unfold noEncodingName; decide }
+
+/- the transport relation holds of these deliveries (it is decidable) … -/
+theorem exReqT : ReqTransports (clientRequest exCfg 5 exReq) exRd := by decide
+theorem exRespT : RespTransports (serve exCfg 6 true true exScript exRd).2 exD := by decide
+theorem exBudget : Budget exCfg exReq exScript 5 6 exRd exD := ⟨by decide, by decide, by decide, by decide⟩
+
+/- … and it REJECTS deliveries that lose, reorder or invent bytes, or drop / alter the trailers -/
+example : ¬ RespTransports (serve exCfg 6 true true exScript exRd).2 { exD with chunks := [some [0, 0, 0, 0, 2, 1]] } := by decide
+example : ¬ RespTransports (serve exCfg 6 true true exScript exRd).2 { exD with trailers := none } := by decide
+example : ¬ RespTransports (serve exCfg 6 true true exScript exRd).2 { exD with trailers := some [] } := by decide
+
+/- a handler that fails at once (trailers-only response) meets `ScriptOk` too -/
+example : ScriptOk idCodec { exScript with early := some exSt, final := none } :=
+  { msgs := by
+      intro m hm; simp [exScript, Sched.msgs] at hm
+      rcases hm with rfl | rfl <;> simp [MsgOk, exCfg, idCodec, defaultMaxRecv]
+    early := by intro st h; simp at h; subst h; exact ⟨by decide, by decide, by unfold noEncodingName; decide⟩
+    final := by intro st h; simp at h
+    initMd := by unfold noEncodingName; decide }
+
+/- the oracle is not vacuous: it rejects a lost message, a wrong code, a lost metadata value and a
+success reported for a failed stream -/
+example : Spec.Call.clientOk true (didOf exScript) (.stream exD.headers [[1, 2]] (some (specSt exSt))) = false := by decide
+example : Spec.Call.clientOk true (didOf exScript) (.stream exD.headers [[1, 2], []] (some { specSt exSt with code := 2 })) = false := by decide
+example : Spec.Call.clientOk true (didOf exScript) (.stream exD.headers [[1, 2], []]
+    (some { specSt exSt with metadata := [(HMap.name "x-a", [50])] })) = false := by decide
+example : Spec.Call.clientOk true (didOf exScript) (.stream exD.headers [[1, 2], []] none) = false := by decide
+/- all hypotheses of the bidi theorem together, on this example -/
+example : Spec.Call.handlerOk true exScript.reads ⟨exReq.md, exReq.msgs.msgs⟩ (gotOf (serve exCfg 6 true true exScript exRd).1) = true ∧
+    Spec.Call.clientOk true (didOf exScript) (sawOf (clientReceive exCfg true exD)) = true :=
+  C02_client_sees_script_bidi exCfg exLaws exReq exRequestOk exScript exScriptOk 5 6 exRd exD exBudget exReqT exRespT
 
 end C02
